@@ -36,9 +36,21 @@ STYLES = {
 STYLES['size'] = ('the violation should depend on the size or count of something crossing a threshold that ordinary use never reaches - a value longer than '
                   'N characters, more than N headers / fields / parameters / routes / cookies, a body or file over some internal buffer size, a nesting depth - '
                   'with everything below the threshold behaving correctly')
+STYLES['interaction'] = ('the violation should need two features of the framework used together (each of them working alone), e.g. HEAD with a ranged file and a '
+                         'server file wrapper, chunked framing with a form and a size limit, a signed cookie on a copied or redirecting response, hooks together '
+                         'with an error handler that raises, a mount point together with a route hook')
+STYLES['encoding'] = ('the violation should need text outside plain ASCII in a place where it is legal but unusual - a non-ASCII or percent-encoded character in a header '
+                      'value, cookie name or value, boundary, file name, field name, host, path segment or query key; or bytes that are not valid UTF-8 where the '
+                      'framework has to decide what to do with them')
+STYLES['types'] = ('the violation should need an argument or return value of an unusual but supported type: bytes / bytearray / memoryview instead of str, a str or int '
+                   'subclass, a tuple or iterator instead of a list, a generator, an object with only part of the file protocol, a mapping that is not a dict, '
+                   'None or an empty container where a value is optional')
+STYLES['numeric'] = ('the violation should need a numeric edge: zero, one, a negative number, a value that is exactly a power of two or a buffer size, a number with '
+                     'leading zeros or a sign, a float where an int is usual, a very large number')
 ROUNDS = {
     'u': ['environment', 'entry_point', 'history', 'boundary'],
     'v': ['cleanup', 'state', 'size', 'history'],
+    'w': ['interaction', 'encoding', 'types', 'numeric'],
 }
 
 TEMPLATE = open(os.path.join(HERE, 'tools', 'seed_agent_prompt.txt')).read()
